@@ -5,6 +5,18 @@ from .. import terms as T
 from .. import pointmodel as P
 
 GEN = [(1, 3, 2, 1, 50), (2, 7, 5, 10, -1234), (3, 1, 1, 1, 0), (4, 9, 5, 4, 7), (5, 1, 1000, 1000, 273150)]
+REP_CHANGES = [("int32_t", "int64_t"), ("uint32_t", "uint64_t"), ("int64_t", "int32_t"), ("uint32_t", "int64_t"), ("int16_t", "int32_t"),
+               ("int32_t", "uint64_t")]
+
+
+def calc_rep(r1, r2):
+    from .C05 import common_type
+    c = common_type(r1, r2)
+    if F.ct_signed(r2) and not F.ct_signed(c):
+        c = {"uint8_t": "int8_t", "uint16_t": "int16_t", "uint32_t": "int32_t", "uint64_t": "int64_t"}[c]
+    return c
+
+
 CMPS = [("eq", "=="), ("ne", "!="), ("lt", "<"), ("le", "<="), ("gt", ">"), ("ge", ">=")]
 
 
@@ -61,7 +73,17 @@ class C09(F.Check):
                                  key=key, family="in")
                     ks.append(k)
                     names["in"] = k.name
-                    self.inst.append((u1, u2, r, names, tag, key))
+                    self.inst.append((u1, u2, r, r, names, tag, key))
+                # rep-changing conversions (the calculation rep is the common type, made signed for a signed destination)
+                if n % 4 == 0 or self.tier == "thorough":
+                    for r1, r2 in REP_CHANGES:
+                        tag = "%s_%s_%s_to_%s" % (u1.name, u2.name, r1.replace("_t", ""), r2.replace("_t", ""))
+                        key = {"from": u1.name, "to": u2.name, "rep": r1, "to_rep": r2}
+                        p = "make_quantity_point<%s>(x)" % u1.cxx
+                        k = F.Kernel("c09_conv2_%s" % tag, r2, [(r1, "x")],
+                                     "return %s.coerce_in<%s>(QuantityPointMaker<%s>{});" % (p, r2, u2.cxx), key=key, family="conv_rep_change")
+                        ks.append(k)
+                        self.inst.append((u1, u2, r1, r2, {"conv": k.name}, tag, key))
                 # two-point operations on a thinner grid
                 if (n % 5 == 0) or self.tier == "thorough" and n % 2 == 0:
                     for r1, r in [(q, q) for q in self.reps()[:2]] + [("int32_t", "int64_t"), ("int16_t", "int32_t")]:
@@ -89,14 +111,19 @@ class C09(F.Check):
 
     def obligations(self, K):
         obs = []
-        for u1, u2, r, names, tag, key in self.inst:
+        for u1, u2, r, r2, names, tag, key in self.inst:
             a, b, p, q = P.conversion(u1, u2)
             key = dict(key, a=a, b=b, p=p, q=q)
             w = F.CTYPES[r][1]
-            lo, hi = F.ct_range(r)
+            cr = calc_rep(r, r2)
+            lo, hi = F.ct_range(cr)          # range of the calculation rep
+            lo2, hi2 = F.ct_range(r2)        # range of the destination rep
+            key["calc_rep"] = cr
             xs = [("x", T.BV(w))]
-            signed = F.ct_signed(r)
+            signed = F.ct_signed(cr)
             for fam in ("conv", "in"):
+                if fam not in names:
+                    continue
                 if K[names[fam]].kernel.dropped:
                     self.extra_cov["dropped_" + fam] = self.extra_cov.get("dropped_" + fam, 0) + 1
                     continue
@@ -111,25 +138,26 @@ class C09(F.Check):
                     # magnitude-sum reach: insensitive to the order in which x*a and b are combined
                     mag = T.iadd(T.imul(T.iabs(xv), T.const_int(a)), T.const_int(abs(b)))
                     reach = T.and_(T.ile(mag, T.const_int(hi)), T.ile(T.imul(mag, T.const_int(p)), T.const_int(hi)),
-                                   T.in_range(s, lo, hi))
+                                   T.in_range(s, lo, hi), T.in_range(xv, lo, hi))
                     return res, divisible, reach
 
-                def fnE(K, x, fam=fam, names=names, exact_parts=exact_parts, r=r, lo=lo, hi=hi, signed=signed):
+                def fnE(K, x, fam=fam, names=names, exact_parts=exact_parts, r2=r2, lo2=lo2, hi2=hi2, signed=signed, same=(r == r2)):
                     e = K[names[fam]](x)
                     res, divisible, reach = exact_parts(x)
-                    pre = T.and_(T.not_(e.ub), divisible, T.in_range(res, lo, hi))
-                    if not signed:
+                    pre = T.and_(T.not_(e.ub), divisible, T.in_range(res, lo2, hi2))
+                    if not signed or not same:
                         pre = T.and_(pre, reach)
-                    return pre, T.eq(F.ival(r, e.ret), res)
+                    return pre, T.eq(F.ival(r2, e.ret), res)
                 obs.append(F.Ob("E_%s:%s" % (fam, tag), xs, fnE, key=key, kernels=[names[fam]],
-                                note="no UB, exact affine result integral and in range => conversion returns exactly it"))
+                                note="no UB, exact affine result integral and in range (intermediates representable in the calculation rep) => "
+                                     "conversion returns exactly it"))
 
-                def fnR(K, x, fam=fam, names=names, exact_parts=exact_parts, lo=lo, hi=hi):
+                def fnR(K, x, fam=fam, names=names, exact_parts=exact_parts, lo2=lo2, hi2=hi2):
                     e = K[names[fam]](x)
                     res, divisible, reach = exact_parts(x)
-                    return T.and_(reach, T.in_range(res, lo, hi)), T.not_(e.ub)
+                    return T.and_(reach, T.in_range(res, lo2, hi2)), T.not_(e.ub)
                 obs.append(F.Ob("R_%s:%s" % (fam, tag), xs, fnR, key=key, kernels=[names[fam]],
-                                note="intermediates (|x|*a+|b|, times p) and result fit the rep => no UB trap"))
+                                note="intermediates (|x|*a+|b|, times p) fit the calculation rep and the result fits the destination => no UB trap"))
         for u1, u2, r1, r, names, tag, key in self.pairs2:
             G, low, res = P.common_point_unit([u1, u2])
             (m1, o1), (m2, o2) = res
